@@ -71,6 +71,14 @@ def run(F, R):
             n4 += 1
             root = F.bodies[g.path].get("root") or g.path
             key = f"{root.rsplit('::', 1)[-1]}:{c.name.rsplit('::', 1)[-1]}"
+            if not ok and tags == {"method:ok"}:
+                # `fallible().ok()?` inside a function (or closure) that returns Option: the failure becomes the function's
+                # own None ("cannot answer"), which its callers must handle - it is not turned into a value
+                for u in uses_of_local(g, place_local(c.dest)):
+                    if u[0] == "call" and u[1].name.rsplit("::", 1)[-1] == "ok" and g.local_ty(0).startswith("std::option::Option<"):
+                        t2 = result_consumers(g, u[1])
+                        if "try" in t2 and propagates(t2):
+                            ok = True
             if ok:
                 R.ok("C23.R4", key + f"#{n4}", dict(consumers=sorted(tags)), g.loc(c.bb), nontrivial=False)
             else:
